@@ -12,7 +12,7 @@ TIERS = {
     "quick":    dict(mc=["MC_AtomTable_quick.cfg", "MC_AtomTable_null.cfg"], tables=300, gen=(2, "{1, 3}"),
                      corpus=(5, 1, 2)),
     "thorough": dict(mc=["MC_AtomTable_thorough.cfg", "MC_AtomTable_deep.cfg", "MC_AtomTable_null.cfg",
-                         "MC_AtomTable_nullwide.cfg"], tables=9000, gen=(3, "{1, 3}"), corpus=(11, 2, 3)),
+                         "MC_AtomTable_nullwide.cfg"], tables=4000, gen=(3, "{1, 3}"), corpus=(11, 2, 3)),
 }
 NEG = [("MC_AtomTable_neg_dedup.cfg", "RequestedModelReturned",
         "de-duplication key without the model (as implemented): a requested second model is not returned"),
@@ -59,11 +59,15 @@ def _nontrivial(t):
         or any(x.startswith("clash") or x.startswith("miss") for x in t["feats"])
 
 
-def validate(rep, cases, sc, what):
-    res = lib.trace_validate("Trace_AtomTable", "Trace_AtomTable_C08.cfg", cases, sc)
-    skipped = [v[0] for v in res["verdicts"] if v[1] == "skip"]
-    res["verdicts"] = [v for v in res["verdicts"] if v[1] != "skip"]
-    rep.add_trace(res, {c["id"]: c for c in cases}, what)
+def validate(rep, cases, sc, what, batch=8000):
+    """Trace validation in batches (bounded JSON size per TLC process); 'skip' lines are informative."""
+    skipped = []
+    for k in range(0, len(cases), batch):
+        part = cases[k:k + batch]
+        res = lib.trace_validate("Trace_AtomTable", "Trace_AtomTable_C08.cfg", part, sc)
+        skipped += [v[0] for v in res["verdicts"] if v[1] == "skip"]
+        res["verdicts"] = [v for v in res["verdicts"] if v[1] != "skip"]
+        rep.add_trace(res, {c["id"]: c for c in part}, what)
     return skipped
 
 
@@ -87,6 +91,7 @@ def run(tier):
         tables = at.gen_tables(t["tables"], lib.seed())
         nfiles, nwin, nres = t["corpus"]
         corpus = at.corpus_tables(at.CORPUS_C08[:nfiles], nwin, nres, lib.seed())
+        emitted = at.check_emitters(small + tables + corpus)    # machinery guard (own tokenizers read the emitters back)
         cases = at.c08_cases(small + tables + corpus)
         t1 = time.time()
         rec = lib.pmap(at.record_c08, cases)
@@ -120,6 +125,7 @@ def run(tier):
         cov["distinct_nontrivial"] = len({json.dumps(x["lines"], sort_keys=True) for x in allt if _nontrivial(x)})
         cov["tables"] = {"exhaustive_small": len(small), "generated": len(tables), "corpus": len(corpus)}
         cov["cases_skipped_outside_domain"] = len(skipped)
+        cov["emitter_roundtrips_checked"] = emitted
         cov["layouts"] = {lay: sum(1 for x in tables if x["layout"] == lay) for lay in at.LAYOUTS}
         cov["features"] = {f: sum(1 for x in tables if f in x["feats"]) for f in at.ATOM_FEATURES + at.NULL_FEATURES}
         byid = {c["id"]: c for c in rec}
